@@ -23,12 +23,17 @@
 //!   `thread::park_timeout` so everything compiles, but loom tests must not
 //!   exercise timeout paths.
 
-#[cfg(not(loom))]
+#[cfg(all(not(loom), not(excsn_fibre_verif)))]
 mod real;
 #[cfg(loom)]
 mod mocked;
+// Verification builds (`--cfg excsn_fibre_verif`): traced primitives, see traced.rs.
+#[cfg(all(not(loom), excsn_fibre_verif))]
+pub(crate) mod traced;
 
-#[cfg(not(loom))]
+#[cfg(all(not(loom), not(excsn_fibre_verif)))]
 pub(crate) use real::*;
 #[cfg(loom)]
 pub(crate) use mocked::*;
+#[cfg(all(not(loom), excsn_fibre_verif))]
+pub(crate) use traced::*;
